@@ -1321,6 +1321,8 @@ impl BufferParser for Parser {
                         } else {
                             1
                         };
+                        // after width * height copies the whole screen shows the character: more copies only push identical rows into the scrollback
+                        let num = min(num, buf.terminal_state.get_width().saturating_mul(buf.terminal_state.get_height()));
                         let ch = AttributedChar::new(self.last_char, caret.get_attribute());
                         (0..num).for_each(|_| buf.print_char(current_layer, caret, ch));
                         return Ok(CallbackAction::Update);
